@@ -35,10 +35,10 @@ GROUPS = {
 # plus_g0 420 s, pow_g0 484 s, fact 248 s, if_g0 199 s are thorough-tier; mul_g0 does not finish in 900 s
 # direct kernels (c16_dir_*: the private operator functions of value.rs through verif_hooks::val, no table construction) cost
 # 2-75 s each (length 175 s): ALL of them are quick-tier. Table cells in the quick tier: the operators whose table entry is a
-# closure (no direct kernel): / and two comparisons; plus one cast harness. Every table cell is thorough-tier (wiring repr -> function).
+# closure (no direct kernel): / , two comparisons, if / else (numeric and error groups); plus one cast harness. Every table cell is thorough-tier (wiring repr -> function).
 CELL_QUICK_SKIP = ["c16_dir_bin_mul_g0"]  # 244 s alone, does not finish in 900 s inside a 12-job batch: thorough tier
 CELL_QUICK_UNARY = []
-CELL_QUICK_BIN = [("div", 0), ("lt", 0), ("eq", 0)]
+CELL_QUICK_BIN = [("div", 0), ("lt", 0), ("eq", 0), ("if", 0), ("if", 1), ("else", 0), ("else", 1)]
 CELL_QUICK_EXTRA = ["c17_casts_i32_f32"]
 C17_RULE_CELLS = ("c16_un_minus", "c16_un_abs", "c16_bin_rem", "c16_un_to_int", "c16_un_to_float", "c16_bin_pow", "c16_bin_div", "c16_un_fact", "c16_bin_shl", "c16_bin_shr",
                   "c16_dir_un_minus", "c16_dir_un_abs", "c16_dir_bin_rem", "c16_dir_un_to_int", "c16_dir_un_to_float", "c16_dir_bin_pow", "c16_dir_un_fact", "c16_dir_bin_shl", "c16_dir_bin_shr",
